@@ -159,10 +159,7 @@ def _ftype_values():
                     if isinstance(t, ast.Name) and isinstance(st.value, ast.Constant)}
             if set(vals) == set(FTYPE_MEMBERS):
                 return vals
-    raise SystemExit("py2coq: FeatureType is not the enum of four members the model knows")
-
-
-FTYPE_VALUES = _ftype_values()
+    raise Fail("FeatureType is not the enum of four members the model knows")
 CORE_CONSTS = {"LOGICAL_OPERATORS": ("logical_ops", List(ASTOP)),
                "ARITHMETIC_OPERATORS": ("arithmetic_ops", List(ASTOP)),
                "AGGREGATION_OPERATORS": ("aggregation_ops", List(ASTOP))}
@@ -510,7 +507,7 @@ class Translator:
         o = self.obj(self.tr(e.value, env))
         if o.ty == FTYPE and e.attr == "value":
             return self.lift([o], lambda c: Val(
-                "(match " + c[0] + " with " + " | ".join(f"{FTYPE_MEMBERS[k]} => {coq_str(v)}" for k, v in FTYPE_VALUES.items()) + " end)", STR))
+                "(match " + c[0] + " with " + " | ".join(f"{FTYPE_MEMBERS[k]} => {coq_str(v)}" for k, v in _ftype_values().items()) + " end)", STR))
         if o.ty == NDATA and e.attr == "value":
             # the value of an ASTOperation member; any other data has no such attribute
             self.cur.intrinsic_eff = True
@@ -2327,4 +2324,13 @@ def main():
 
 
 if __name__ == "__main__":
-    main()
+    try:
+        main()
+    except SystemExit:
+        raise
+    except BaseException as exc:  # noqa: BLE001 — a crash of the translator must not leave a report that says "all fine"
+        import traceback
+        traceback.print_exc()
+        with open(os.path.join(GEN, "src_report.json"), "w") as fh:
+            json.dump({"translator": {"unit": f"translator crashed: {type(exc).__name__}: {exc}"}}, fh, indent=1)
+        sys.exit(2)
